@@ -404,10 +404,21 @@ pub fn judge(cap: usize, term: &[u8], ops: &[OpTrace], seam: SeamInfo) -> Verdic
             (OpKind::Emit(m), OpResult::Wrote(n)) => {
                 if *n != m.len() {
                     find!(Rule::Conservation, oi, "emit of a {}-byte metric returned Ok({})", m.len(), n);
+                    if !seam.fault_free {
+                        find!(Rule::Fault, oi, "emit of a {}-byte metric returned Ok({}): neither the metric's length nor an error", m.len(), n);
+                    }
                 }
                 if bypass_ok {
                     let ok: BTreeSet<(usize, bool)> = states.iter().copied().filter(|s| s.1).collect();
                     if ok.is_empty() {
+                        if !seam.fault_free {
+                            find!(
+                                Rule::Fault,
+                                oi,
+                                "oversized metric '{}' was acknowledged (Ok) although it was not written during its own emit: lost without being reported",
+                                show(m)
+                            );
+                        }
                         find!(
                             Rule::Conservation,
                             oi,
